@@ -114,8 +114,9 @@ def default_key(v: Dict[str, Any]) -> str:
     e = v.get("expect", {})
     if not isinstance(e, dict):
         if "hist" in v:
-            return "%s|%s|%s" % (v.get("kind"), json.dumps(v.get("env"), sort_keys=True),
-                                 ",".join(o.get("op", "") for o in v["hist"]))
+            return "%s|%s|%s|%s" % (v.get("kind"), json.dumps(v.get("env"), sort_keys=True),
+                                    ",".join("%s%s" % (o.get("op", ""), "!" if o.get("fault") else "") for o in v["hist"]),
+                                    sorted(v.get("devs") or []))
         return str(v.get("kind"))
     reasons = ",".join(sorted({x["reason"] for x in e.get("errors", [])})) if isinstance(e.get("errors"), list) else ""
     sch = v.get("schema", {})
